@@ -188,7 +188,7 @@ func writeEvidence(verif, prop, tier string, seed int, results []*interp.Harness
 		intrNames = append(intrNames, k)
 	}
 	sort.Strings(intrNames)
-	var assumptions []string
+	assumptions := []string{}
 	for k := range assum {
 		assumptions = append(assumptions, k)
 	}
@@ -218,8 +218,8 @@ func writeEvidence(verif, prop, tier string, seed int, results []*interp.Harness
 		"harnesses":           hsums,
 		"functions_encoded":   fxFuncs,
 		"dependency_functions_executed_from_source": len(depFuncs),
-		"intrinsics_hit":      intrNames,
-		"solver_seconds":      solverS,
+		"intrinsics_hit": intrNames,
+		"solver_seconds": solverS,
 	}
 	if ex != nil {
 		cov["primary_solver"] = ex.Solver
